@@ -168,11 +168,11 @@ mod inherit {
 		}
 	}
 
-	pub fn body() {
+	pub fn body(full: bool) {
 		// who declares (= has a mapping for) the field f:I ?
-		let in_c = sym::bool(); let in_p = sym::bool(); let in_q = sym::bool(); let in_g = sym::bool();
-		let c_known = sym::bool();     // does the inheritance provider know C at all?
-		let p_mapped = sym::bool();    // is the intermediate class P part of the mappings?
+		let in_c = sym::bool(); let in_p = sym::bool(); let in_q = sym::bool(); let in_g = if full { sym::bool() } else { false };
+		let c_known = if full { sym::bool() } else { true };     // does the inheritance provider know C at all?
+		let p_mapped = if full { sym::bool() } else { true };    // is the intermediate class P part of the mappings?
 		let q_first = sym::bool();     // declaration order of C's super types: [Q, P] instead of [P, Q]
 		let (to_c, to_p, to_q, to_g, to_cls) = (oc("c").to_owned(), oc("p").to_owned(), oc("q").to_owned(), oc("g").to_owned(), oc("x").to_owned());
 		let entry = |to: &'static str| -> hook::MemberEntry<'static, FieldNameSlice, FieldDescriptor> { ((fname("f"), fdesc("I")), (fname(to), fdesc("I"))) };
@@ -203,19 +203,22 @@ mod inherit {
 		let unk = re.map_field(oc("Z"), fname("f"), unsafe { duke::tree::field::FieldDescriptorSlice::from_inner_unchecked(JavaStr::from_str("I")) }).expect("lookup cannot fail");
 		assert!(bytes_eq(unk.name.as_inner().as_bytes(), b"f"), "unmapped owner: unchanged name");
 		witness!(!in_c && c_known && in_p && in_q && q_first, "declared by both super types, interface listed first");
-		witness!(!in_c && c_known && p_mapped && !in_p && in_g && in_q && !q_first, "grandparent through the first super type beats the second super type");
-		witness!(!in_c && c_known && !p_mapped && in_q, "missing intermediate class");
+		witness!(!full || (!in_c && c_known && p_mapped && !in_p && in_g && in_q && !q_first), "grandparent through the first super type beats the second super type");
+		witness!(!full || (!in_c && c_known && !p_mapped && in_q), "missing intermediate class");
 		core::mem::forget((got, other, unk, re));
 		core::mem::forget((supers, to_c, to_p, to_q, to_g, to_cls));
 	}
 }
 
-//# {"id":"c06_inheritance_search","module":"c06_remap::inherit_proofs","props":["C06"],"tier":"quick","cap":1500,"lib":"verif","bound":"member remapper built from explicit tables (hook b_remapper_from_parts): hierarchy C -> [P, Q] (either order), P -> [G]; every subset of {C, P, Q, G} declaring f:I, P mapped or not, C known to the inheritance provider or not (128 configurations, symbolic); model indexmap; unwind 8","fns":["quill::remapper::BRemapperImpl::{map_field_fail}","BRemapper::map_field","TupleReq/TupleKey Equivalent"]}
+//# {"id":"c06_inheritance_order","module":"c06_remap::inherit_proofs","props":["C06"],"tier":"quick","cap":1500,"bound":"member remapper built from explicit tables (hook b_remapper_from_parts): hierarchy C -> [P, Q] in either order; every subset of {C, P, Q} declaring f:I (16 configurations, symbolic); model indexmap; unwind 8","fns":["quill::remapper::BRemapperImpl::map_field_fail","BRemapper::map_field","TupleReq/TupleKey Equivalent"]}
+//# {"id":"c06_inheritance_search","module":"c06_remap::inherit_proofs","props":["C06"],"tier":"thorough","cap":3600,"bound":"member remapper built from explicit tables (hook b_remapper_from_parts): hierarchy C -> [P, Q] (either order), P -> [G]; every subset of {C, P, Q, G} declaring f:I, P mapped or not, C known to the inheritance provider or not (128 configurations, symbolic); model indexmap; unwind 8","fns":["quill::remapper::BRemapperImpl::{map_field_fail}","BRemapper::map_field","TupleReq/TupleKey Equivalent"]}
 pub mod inherit_proofs {
 	use crate::proofs;
 	proofs! {
 		#[cfg_attr(kani, kani::unwind(8))]
-		fn c06_inheritance_search() { super::inherit::body(); }
+		fn c06_inheritance_search() { super::inherit::body(true); }
+		#[cfg_attr(kani, kani::unwind(8))]
+		fn c06_inheritance_order() { super::inherit::body(false); }
 	}
 }
-pub use inherit_proofs::c06_inheritance_search;
+pub use inherit_proofs::{c06_inheritance_search, c06_inheritance_order};
